@@ -983,6 +983,21 @@ add({"name": "copy_hfe", "file": "dfs/img_hfe.cc",
                (r"(while \(begin != end\))", r"\1 COPY_HFE_LOOP_CONTRACT", 1),
                (r"(for \(int bitnum = 0; bitnum < 8; \+\+bitnum\))", r"COPY_HFE_INNER_GHOST \1 COPY_HFE_INNER_CONTRACT", 1)],
      "dropped": ["diagnostic texts"]})
+add({"name": "hfe_block_sizes", "file": "dfs/img_hfe.cc", "anchor": r"constexpr std::vector<byte>::size_type side_block_size = ",
+     "region_end": r"const auto max_offset", "toplevel": True, "sig": "",
+     "rules": [(r"constexpr std::vector<byte>::size_type side_block_size = (\w+);", r"enum { side_block_size = \1 };", 1),
+               (r"constexpr unsigned int raw_data_block_size = ([^;]*);", r"enum { raw_data_block_size = \1 };", 1)]})
+add({"name": "hfe_side_blocks", "file": "dfs/img_hfe.cc",
+     "anchor": r"auto begin_offset = side_block_size \* side;", "region_end": r"#if ULTRA_VERBOSE\s*if \(DFS::verbose\)\s*\{\s*std::cerr << std::dec << std::setfill\(' '\)\s*<< \"Track \"",
+     "sig": "static void hfe_side_blocks(unsigned int side, size_t track_bytes_read, int hfe_version_)",
+     "rules": [(r"#if ULTRA_VERBOSE.*?#endif", "", ">=0"),
+               (r"if \(DFS::verbose\)\s*\{\s*\}", "/* verbose dropped */", ">=0"),
+               (r"\bauto begin_offset\b", "size_t begin_offset", 1),
+               (r"const auto end_offset = std::min\(([^;]*?),\s*([^;]*?)\);", r"const size_t end_offset = size_min(\1, \2);", 1),
+               (r"\bassert\(end_offset <= raw_data\.size\(\)\);", "VERIF_ASSERT(end_offset <= track_bytes_read);", "=0or1"),
+               (r"copy_hfe\(([^,]*),\s*raw_data\.data\(\) \+ (\w+),\s*raw_data\.data\(\) \+ (\w+),\s*std::back_inserter\(track_stream\)\);", r"copy_hfe_v(\1, \2, \3);", 1),
+               (r"(while \(begin_offset < track_bytes_read\))", r"\1 SIDE_BLOCKS_LOOP_CONTRACT", 1)],
+     "dropped": ["ULTRA_VERBOSE / verbose diagnostics"]})
 add({"name": "PicTrack_track_len", "file": "dfs/img_hfe.cc", "anchor": r"unsigned long track_len\(\) const",
      "sig": "static unsigned long PicTrack_track_len(const struct PicTrack *self)",
      "pre": "#define track_len_ (self->track_len_)\n", "post": "#undef track_len_\n", "rules": []})
